@@ -254,8 +254,12 @@ func Cmp(ei, ej Object) int {
 		// quote() results are values a program can hold, compare and use as map keys: order them by their printed form.
 		return cmp.Compare(ei.(Quote).Inspect(), ej.(Quote).Inspect())
 
-	// RETURN, MACRO, ANY aren't expected to be compared.
-	case RETURN, MACRO, UNKNOWN, ANY:
+	case RETURN:
+		// break/continue/return values can end up inside arrays ([break] == [break]): order them by what they carry.
+		return Cmp(ei.(ReturnValue).Value, ej.(ReturnValue).Value)
+
+	// MACRO, ANY aren't expected to be compared.
+	case MACRO, UNKNOWN, ANY:
 		panic(fmt.Sprintf("Unexpected type in Cmp: %s", ti))
 	}
 	return 1
